@@ -45,6 +45,10 @@ class Contract(object):
     def requires(self, ex, st, a):
         return []
 
+    def assumes(self, ex, st, a):
+        """facts about dependencies / spec-function axioms: assumed on entry and at call sites, never checked"""
+        return []
+
     def ensures(self, ex, pre, st, a, result):
         return []
 
@@ -86,7 +90,7 @@ def verify_function(ex, con, prop=None):
             ex.loopspecs = dict(con.loops)
             ex.index_loops(node)
             reqs = con.requires(ex, st, a)
-            st0 = st.assume(*[t for (_, t) in reqs])
+            st0 = st.assume(*([t for (_, t) in reqs] + list(con.assumes(ex, st, a))))
             mterms = con.model_terms(ex, st0, a)
             fr = Frame(mod, ci, "<root>", depth=0)
             ex.root_pending = True
@@ -117,7 +121,9 @@ def verify_function(ex, con, prop=None):
         base = "%s::%s[%s]" % (con.file, con.qual, variant)
         # cover: requires satisfiable
         hint = con.cover_hint(ex, st0, a) if hasattr(con, "cover_hint") else []
-        obligs.append(Obligation(base + "::cover:requires", list(st0.pc) + list(hint), tm.FALSE, kind="V", prop=prop, expect="sat",
+        # the cover is about the `requires` (the `assumes` are dependency facts and conservative definitions)
+        cover_pc = list(st.assume(*[t for (_, t) in reqs]).pc)
+        obligs.append(Obligation(base + "::cover:requires", cover_pc + list(hint), tm.FALSE, kind="V", prop=prop, expect="sat",
                                  decls=ex.models.decls, sorts=ex.models.sorts,
                                  defs=ex.models.defs_for(tm.FALSE, st0.pc),
                                  text="precondition is satisfiable (vacuity guard)"))
